@@ -1,6 +1,10 @@
 package upstream
 
 import (
+	"context"
+	"crypto/tls"
+	"net"
+
 	"github.com/IrineSistiana/mosproxy/internal/verifrt"
 )
 
@@ -133,4 +137,92 @@ func VerifH_C17_DialAddrOverride_S5() {
 		wantNet = "unix"
 	}
 	verifrt.Assert(dialNetworkTcpOrUnix(got) == wantNet, "network is unix exactly for @name")
+}
+
+// ---- wiring of NewUpstream: what is dialled and which server name is verified
+
+type vDialRec struct {
+	network, addr string
+}
+
+type vNullConn struct {
+	net.Conn
+	closed int
+}
+
+func (c *vNullConn) Close() error { c.closed++; return nil }
+
+// VerifH_C17_Wiring: for each stream scheme and several host / dial_addr forms, the connection is dialled to
+// the reference address and the TLS server name is the URL host (never the dial_addr).
+func VerifH_C17_Wiring_S4() {
+	verifrt.Unwind(400)
+	verifrt.SchedBound(0)
+	verifrt.CtxNoExpiry = true
+	var dials []vDialRec
+	var sni []string
+	tlsMode := verifrt.Shard()%2 == 1
+	verifrt.Redirect("(*net.Dialer).DialContext", func(d *net.Dialer, ctx context.Context, network, address string) (net.Conn, error) {
+		dials = append(dials, vDialRec{network, address})
+		if len(network) > 0 && tlsMode {
+			return &vNullConn{}, nil // TLS: let the handshake stage run so that the server name is observed
+		}
+		return nil, errVLeg // the connection attempt itself is not the subject
+	})
+	scheme := []string{"tcp", "tls", "tcp+pipeline", "tls+pipeline"}[verifrt.Shard()]
+	isTLS := scheme[:3] == "tls"
+	hosts := []struct{ url, host, port string }{
+		{"dns.example", "dns.example", ""},
+		{"dns.example:5353", "dns.example", "5353"},
+		{"192.0.2.7", "192.0.2.7", ""},
+		{"[2001:db8::1]", "2001:db8::1", ""},
+		{"[2001:db8::1]:5353", "2001:db8::1", "5353"},
+	}
+	h := hosts[verifrt.Choose("host", len(hosts))]
+	dialForms := []struct{ dial, want string }{
+		{"", ""},
+		{"198.51.100.9", "198.51.100.9:DEF"},
+		{"198.51.100.9:8853", "198.51.100.9:8853"},
+		{"other.example", "other.example:DEF"},
+		{"2001:db8::9", "[2001:db8::9]:DEF"},
+		{"[2001:db8::9]:8853", "[2001:db8::9]:8853"},
+	}
+	df := dialForms[verifrt.Choose("dial", len(dialForms))]
+	def := "53"
+	if isTLS {
+		def = "853"
+	}
+	opt := Opt{DialAddr: df.dial}
+	if isTLS {
+		verifrt.Redirect("crypto/tls.Client", func(c net.Conn, cfg *tls.Config) *tls.Conn {
+			sni = append(sni, cfg.ServerName)
+			return nil
+		})
+		verifrt.Redirect("(*crypto/tls.Conn).HandshakeContext", func(c *tls.Conn, ctx context.Context) error { return errVLeg })
+		verifrt.Redirect("(*crypto/tls.Conn).Close", func(c *tls.Conn) error { return nil })
+	}
+	u, err := NewUpstream(scheme+"://"+h.url, opt)
+	verifrt.Assert(err == nil && u != nil, "supported address form is accepted")
+	q := make([]byte, 12)
+	u.ExchangeContext(context.Background(), q)
+	verifrt.Quiesce()
+	verifrt.Reach("dialled")
+	verifrt.Assert(len(dials) >= 1, "a connection is dialled")
+	want := df.want
+	if want == "" {
+		p := h.port
+		if p == "" {
+			p = def
+		}
+		if h.host[0] == '2' && len(h.host) > 9 { // the IPv6 literal
+			want = "[" + h.host + "]:" + p
+		} else {
+			want = h.host + ":" + p
+		}
+	} else if len(want) > 3 && want[len(want)-3:] == "DEF" {
+		want = want[:len(want)-3] + def
+	}
+	verifrt.Assert(dials[0].network == "tcp" && dials[0].addr == want, "dialled exactly the configured host/port or the dial_addr override (default port added when missing)")
+	if isTLS {
+		verifrt.Assert(len(sni) >= 1 && sni[0] == h.host, "the TLS server name is the URL host (without port/brackets), never the dial_addr")
+	}
 }
